@@ -160,8 +160,8 @@ func isValidUUIDVersionAndVariant(s string) bool {
 		return true
 	}
 
-	// Special case: max UUID (all f's) is valid
-	if s == "ffffffff-ffff-ffff-ffff-ffffffffffff" {
+	// Special case: max UUID (all f's, in either case) is valid
+	if isMaxUUID(s) {
 		return true
 	}
 
@@ -190,4 +190,22 @@ func isValidUUIDVersionAndVariant(s string) bool {
 	return variant == '8' || variant == '9' ||
 		variant == 'A' || variant == 'a' ||
 		variant == 'B' || variant == 'b'
+}
+
+// isMaxUUID reports whether every hexadecimal digit of s is 'f' or 'F'.
+// Hexadecimal letters are case-insensitive everywhere else in a UUID, so the
+// max UUID is recognized in upper, lower and mixed case alike.
+// The caller has already checked the length and the hyphen positions.
+func isMaxUUID(s string) bool {
+	for i := range 36 {
+		if i == 8 || i == 13 || i == 18 || i == 23 {
+			continue
+		}
+
+		if s[i] != 'f' && s[i] != 'F' {
+			return false
+		}
+	}
+
+	return true
 }
